@@ -14,6 +14,7 @@ struct Target {
 	int level;                          // parity
 	uint32_t pos;
 	std::string rel; uint64_t off; uint64_t len;
+	bool semi = false;                  // data block of an unchanged, fully synced file in a stripe that other disks made unsynced
 };
 
 void corrupt(Exec& x, Rng& r, const Target& t, int shape)
@@ -53,23 +54,32 @@ static void op_c04_sweep(Exec& x, const Json& op, int)
 	for (auto& f : c.files) for (auto& b : f.blocks) if (b.state != BS_BLK) partial = true;
 	for (auto& m : c.maps) if (!m.deleted.empty()) partial = true;
 	std::vector<bool> clean(c.blockmax, true);
+	std::vector<bool> file_same(c.files.size(), false);
 	for (auto& m : c.maps) for (auto& kv : m.deleted) if (kv.first < c.blockmax) clean[kv.first] = false;
 	for (auto& f : c.files) {
 		const DiskCfg* d = x.sb.disk(c.maps[f.map_idx].name);
 		uint64_t sz = 0; int64_t ms = 0, mns = 0;
 		bool same = d && x.sb.stat_file(d->top + "/" + f.sub, sz, ms, mns) && sz == f.size && ms == f.mtime_sec && mns == f.mtime_nsec;
+		file_same[(size_t)(&f - &c.files[0])] = same;
 		if (!same) partial = true; // changed on disk and not recorded at all (the early-stopped sync was refused or failed)
 		for (auto& b : f.blocks) if (b.pos < c.blockmax && (b.state != BS_BLK || !same)) clean[b.pos] = false;
 	}
 	if (partial && !op.num("partial")) return;
+	// changes made after the last sync may touch only links or unrecorded names: no control runs and no exactness then either
+	if (op.num("partial")) partial = true;
 	if (partial) x.probe("c04.partly_synced_arrays");
 	std::vector<Target> targets;
 	for (size_t fi = 0; fi < c.files.size(); ++fi) {
 		const CFile& f = c.files[fi];
 		std::string rel = x.sb.disk(c.maps[f.map_idx].name)->top + "/" + f.sub;
 		for (size_t bi = 0; bi < f.blocks.size(); ++bi) {
-			if (f.blocks[bi].pos >= c.blockmax || !clean[f.blocks[bi].pos]) continue;
+			if (f.blocks[bi].pos >= c.blockmax) continue;
+			// a synced block of an unchanged file is verifiable by its own hash whatever the other disks of its stripe went
+			// through (pending, freed or changed files there): the damage must still be reported, located and marked bad
+			bool semi = !clean[f.blocks[bi].pos];
+			if (semi && !(f.blocks[bi].state == BS_BLK && file_same[fi])) continue;
 			Target t;
+			t.semi = semi;
 			t.parity = false; t.file_idx = (int)fi; t.block_idx = (uint32_t)bi; t.level = -1; t.pos = f.blocks[bi].pos;
 			t.rel = rel; t.off = (uint64_t)bi * bs; t.len = std::min<uint64_t>(bs, f.size - t.off);
 			targets.push_back(t);
@@ -286,7 +296,7 @@ static void op_c04_sweep(Exec& x, const Json& op, int)
 			x.probe(cs1.cmd == 0 ? "c04.audit_cases" : "c04.check_cases");
 		}
 		x.check_parity_every_cmd = true;
-		if (!cs1.t.empty()) { bool anyp = false, anyd = false; for (auto i : cs1.t) { if (targets[i].parity) anyp = true; else anyd = true; } if (anyp) x.probe("c04.parity_targets"); if (anyd) x.probe("c04.data_targets"); if (cs1.t.size() > 1) x.probe("c04.combined"); }
+		if (!cs1.t.empty()) { bool anyp = false, anyd = false; for (auto i : cs1.t) { if (targets[i].semi) x.probe("c04.data_targets_in_unsynced_stripes"); if (targets[i].parity) anyp = true; else anyd = true; } if (anyp) x.probe("c04.parity_targets"); if (anyd) x.probe("c04.data_targets"); if (cs1.t.size() > 1) x.probe("c04.combined"); }
 	}
 	reset();
 	x.out.nontrivial = x.out.nontrivial_cases > 0;
@@ -314,7 +324,24 @@ static RunPlan gen_silent(uint64_t seed, int tier)
 		else { s.opts.push_back("-B"); s.opts.push_back(strf("%d", (int)rng.range(1, 3))); }
 		p.ops.push_back(op_cmd(gen_sched(rng, s)));
 	}
-	p.ops.push_back(Json::obj().set("k", "c04_sweep").set("seed", rng.next() >> 1).set("limit", tier ? 0 : 14).set("partial", partial ? 1 : 0));
+	uint64_t sweep_seed = rng.next() >> 1;
+	// sometimes files are rewritten, extended or touched after the last sync and not recorded at all: their stripes are
+	// unsynced for scrub and check, the synced blocks of the other disks in those stripes stay verifiable
+	if (rng.chance(1, 3)) {
+		int n = (int)rng.range(1, 3);
+		for (int i = 0; i < n; ++i) {
+			Json o = Json::obj();
+			int64_t d = (int64_t)rng.below(p.cfg.disks.size()), f = (int64_t)rng.below(32);
+			switch (rng.below(3)) {
+			case 0: o.set("k", "overwrite").set("d", d).set("f", f).set("size", gen_size(rng, p.cfg.block_size())).set("seed", rng.next() >> 1).set("new_inode", (int)rng.below(2)); break;
+			case 1: o.set("k", "append").set("d", d).set("f", f).set("n", rng.range(1, 3 * p.cfg.block_size())).set("seed", rng.next() >> 1); break;
+			default: o.set("k", "touch").set("d", d).set("f", f); break;
+			}
+			p.ops.push_back(o);
+		}
+		partial = true;
+	}
+	p.ops.push_back(Json::obj().set("k", "c04_sweep").set("seed", sweep_seed).set("limit", tier ? 0 : 14).set("partial", partial ? 1 : 0));
 	return p;
 }
 
